@@ -5,6 +5,10 @@ mod instances;
 mod prop;
 mod runner;
 mod selftest;
+mod seq;
+mod seq_c15;
+mod seq_more;
+mod seqprops;
 mod shard;
 mod varc;
 mod world;
@@ -51,6 +55,7 @@ fn parse_cfg_string(s: &str) -> rt::Config {
             "p" => c.p = v.parse().unwrap(),
             "s" => c.s = v.parse().unwrap(),
             "f" => c.f = v.parse().unwrap(),
+            "k" => c.k = v.parse().unwrap(),
             "step_cap" => c.step_cap = v.parse().unwrap(),
             "model" => {
                 c.model = match v {
@@ -73,6 +78,7 @@ const ASSUMPTIONS: &[&str] = &[
 ];
 
 fn main() {
+    rt::install_panic_hook();
     let args: Vec<String> = std::env::args().collect();
     match args.get(1).map(|s| s.as_str()) {
         Some("selftest") => {
@@ -151,6 +157,30 @@ fn main() {
                 }
             }
         }
+        Some("seqsearch") => {
+            // vh seqsearch <max_guards> <max_handles> <depth|0> <threads>
+            let a = |i: usize, d: usize| args.get(i).and_then(|s| s.parse().ok()).unwrap_or(d);
+            let t = std::time::Instant::now();
+            let d = a(4, 0);
+            let r = seq::search(a(2, 3), a(3, 2), if d == 0 { None } else { Some(d) }, a(5, 16), false);
+            println!(
+                "states={} transitions={} replays={} max_depth={} closed={} cas={} {:.1}s",
+                r.states,
+                r.transitions,
+                r.replays,
+                r.max_depth,
+                r.closed,
+                r.cas_transitions,
+                t.elapsed().as_secs_f64()
+            );
+            println!("{:?}", r.ops_hist);
+            for s in &r.samples {
+                println!("sample {}", s);
+            }
+            if let Some((p, e)) = r.violation {
+                println!("VIOLATION {:?}\n  {}", p, e);
+            }
+        }
         Some("run") => {
             let pat = args.get(2).cloned().unwrap_or_default();
             let cfg = parse_cfg(&args[3..]);
@@ -192,6 +222,16 @@ fn main() {
             }
             std::process::exit(if bad { 1 } else { 0 });
         }
+        Some("seqpart") => {
+            // vh seqpart <Cxx> --tier T : the sequential part in this build, as JSON on stdout
+            let p = args.get(2).cloned().unwrap_or_default();
+            let tier = match flag(&args, "--tier").as_deref() {
+                Some("thorough") => prop::Tier::Thorough,
+                _ => prop::Tier::Quick,
+            };
+            let out = seqprops::run(&p, tier);
+            println!("@@ {}", serde_json::to_string(&out).unwrap());
+        }
         Some("prop") => {
             let t0 = std::time::Instant::now();
             let p = args.get(2).cloned().unwrap_or_default();
@@ -215,40 +255,135 @@ fn main() {
                 budget_s: flag(&args, "--budget-s").and_then(|s| s.parse().ok()),
                 write_evidence: true,
             };
+            let known = prop::load_known(&o.known_file);
             let all = instances::all();
-            let out = prop::run_prop(&all, &o);
-            let eng = &out.evidence["engine"];
-            let execs = eng["executions"].as_u64().unwrap_or(0);
+            let has_engine = all.iter().any(|i| i.props.contains(&p.as_str()));
+            let mut machinery: Vec<String> = Vec::new();
+            let mut violations = 0u32;
+            let out = if has_engine && flag(&args, "--no-engine").is_none() {
+                let out = prop::run_prop(&all, &o);
+                violations += out.violations;
+                machinery.extend(out.machinery_errors.clone());
+                Some(out)
+            } else {
+                None
+            };
+            // sequential / enumeration parts
+            let mut seqs: Vec<seqprops::SeqOut> = Vec::new();
+            if violations == 0 && flag(&args, "--no-seq").is_none() {
+                if seqprops::has_seq_part(&p) {
+                    seqs.push(seqprops::run(&p, tier));
+                    if tier == prop::Tier::Thorough {
+                        if let Some(ship) = &o.ship_bin {
+                            match std::process::Command::new(ship).args(["seqpart", &p, "--tier", "thorough"]).output() {
+                                Ok(outp) => {
+                                    let txt = String::from_utf8_lossy(&outp.stdout).to_string();
+                                    match txt.lines().find_map(|l| l.strip_prefix("@@ ")).map(serde_json::from_str::<seqprops::SeqOut>) {
+                                        Some(Ok(so)) => seqs.push(so),
+                                        _ => machinery.push(format!("the sequential part in the shipped-slot-count build did not answer (status {})", outp.status)),
+                                    }
+                                }
+                                Err(e) => machinery.push(format!("cannot run {}: {}", ship, e)),
+                            }
+                        }
+                    }
+                }
+                if p == "C19" {
+                    let table = flag(&args, "--c19-table").unwrap_or_else(|| "/verif/.target/typecheck/table.tsv".into());
+                    seqs.push(seqprops::c19(&table));
+                }
+            }
+            let mut known_lines: Vec<String> = Vec::new();
+            for so in &seqs {
+                for v in &so.violations {
+                    if v.message.starts_with("MACHINERY") {
+                        machinery.push(v.message.clone());
+                        continue;
+                    }
+                    if let Some(k) = known.iter().find(|k| k.matches_case(&p, &v.case, &v.message)) {
+                        let line = format!("KNOWN-FINDING: property={} {}", p, k.description);
+                        if !known_lines.contains(&line) {
+                            known_lines.push(line);
+                        }
+                        continue;
+                    }
+                    violations += 1;
+                    let _ = std::fs::create_dir_all(&o.replay_dir);
+                    let mut h: u64 = 1469598103934665603;
+                    for b in v.case.bytes() {
+                        h = (h ^ b as u64).wrapping_mul(1099511628211);
+                    }
+                    let path = format!("{}/{}-seq-{:08x}.json", o.replay_dir, p, h & 0xffff_ffff);
+                    let mut r = v.replay.clone();
+                    if let Some(obj) = r.as_object_mut() {
+                        obj.insert("property".into(), json!(p));
+                        obj.insert("message".into(), json!(v.message));
+                        obj.insert("case_description".into(), json!(v.case));
+                    }
+                    let _ = std::fs::write(&path, serde_json::to_string_pretty(&r).unwrap());
+                    println!("VIOLATION property={} replay={}", p, path);
+                    println!("  case: {}", v.case.chars().take(300).collect::<String>());
+                    println!("  {}", v.message);
+                    if violations >= 5 {
+                        break;
+                    }
+                }
+            }
+            for l in &known_lines {
+                println!("{}", l);
+            }
+            // evidence
+            let empty = json!({});
+            let eng = out.as_ref().map(|o| &o.evidence["engine"]).unwrap_or(&empty);
+            let e_execs = eng["executions"].as_u64().unwrap_or(0);
+            let s_states: u64 = seqs.iter().map(|s| s.states).sum();
+            let s_trans: u64 = seqs.iter().map(|s| s.transitions).sum();
+            let s_traces: u64 = seqs.iter().map(|s| s.traces).sum();
+            let s_distinct: u64 = seqs.iter().map(|s| s.distinct).sum();
+            let mut samples: Vec<serde_json::Value> = eng["samples"].as_array().cloned().unwrap_or_default();
+            for s in &seqs {
+                samples.extend(s.samples.iter().take(4).cloned());
+            }
+            if samples.is_empty() {
+                samples.push(json!("no execution completed"));
+            }
+            let exhaustive = eng["all_bounded_spaces_completed"].as_bool().unwrap_or(true) && seqs.iter().all(|s| s.exhaustive) && machinery.is_empty();
+            let mut rule = String::new();
+            if out.is_some() {
+                rule.push_str("engine part: every execution of every listed harness within the listed deviation bounds is enumerated (depth-first over choice vectors, cut into subtrees by the positions of the first deviations); each execution runs the real crate under the controlled scheduler and memory model; distinct = distinct (harness, hash of the per-thread call results and observations). ");
+            }
+            if !seqs.is_empty() {
+                rule.push_str("sequential part: explicit-state / complete enumeration as described under coverage.sequential[].detail; every enumerated case is executed on the implementation; distinct = abstract states or distinct cases/outcomes.");
+            }
             let ev = json!({
                 "property_id": p,
                 "tier": tier.name(),
                 "seed": seed,
                 "level": "model_checking",
                 "coverage": {
-                    "states": eng["choice_tree_nodes"].as_u64().unwrap_or(0).max(1),
-                    "transitions": eng["engine_steps"].as_u64().unwrap_or(0).max(1),
-                    "traces_validated_against_impl": execs,
-                    "evaluations": execs,
-                    "distinct_nontrivial": eng["distinct_outcomes"],
-                    "rule": "every execution of every listed harness within the listed deviation bounds is enumerated (depth-first over choice vectors, cut into subtrees by the positions of the first deviations); each execution runs the real crate under the controlled scheduler and memory model. distinct = distinct (harness, hash of the per-thread call results and observations); an execution is non-trivial when it completes with a recorded history",
-                    "samples": eng["samples"],
-                    "exhaustive": eng["all_bounded_spaces_completed"],
+                    "states": (eng["choice_tree_nodes"].as_u64().unwrap_or(0) + s_states).max(1),
+                    "transitions": (eng["engine_steps"].as_u64().unwrap_or(0) + s_trans).max(1),
+                    "traces_validated_against_impl": e_execs + s_traces,
+                    "evaluations": e_execs + s_traces,
+                    "distinct_nontrivial": eng["distinct_outcomes"].as_u64().unwrap_or(0) + s_distinct,
+                    "rule": rule,
+                    "samples": samples,
+                    "exhaustive": exhaustive,
                     "engine": eng,
+                    "sequential": seqs.iter().map(|s| s.detail.clone()).collect::<Vec<_>>(),
+                    "known_findings_reported": known_lines,
                 },
                 "assumptions": ASSUMPTIONS,
                 "wall_s": t0.elapsed().as_secs_f64(),
-                "violations": out.violations,
+                "violations": violations,
             });
             let _ = std::fs::create_dir_all(&o.evidence_dir);
             let path = format!("{}/{}.json", o.evidence_dir, p);
             std::fs::write(&path, serde_json::to_string_pretty(&ev).unwrap()).expect("cannot write evidence");
-            if !out.machinery_errors.is_empty() {
-                for e in &out.machinery_errors {
-                    println!("MACHINERY-ERROR {}", e);
-                }
-                std::process::exit(if out.violations > 0 { 1 } else { 2 });
+            for e in &machinery {
+                println!("MACHINERY-ERROR {}", e);
             }
-            std::process::exit(if out.violations > 0 { 1 } else { 0 });
+            std::process::exit(if violations > 0 { 1 } else if !machinery.is_empty() { 2 } else { 0 });
         }
         _ => {
             eprintln!("usage: vh selftest | list | run <pattern> [cfg] | prop <Cxx> --tier quick|thorough | replay <file> | trace <instance> <choices> [cfg]");
